@@ -519,6 +519,9 @@ def miscOp (op : String) (args : List String) : Option String :=
       pure (";".intercalate (ps.map (fun p => match millerLoop [(p, prep)] with
         | some m => showOpt fq12IO.shw (finalExponentiation m)
         | none => "PANIC")))
+  | "preparestress", [qs, _] => do
+      let qs ← (splitList qs).mapM A2.parse
+      if qs.isEmpty then none else pure "ok"      -- the model is a pure function: preparation cannot depend on other threads
   | "pairwith1", [p, q] => do let p ← A1.parse p; let q ← A2.parse q; pure (showFq12O (pairing p q))
   | "pairwith2", [p, q] => do let p ← A1.parse p; let q ← A2.parse q; pure (showFq12O (pairing p q))
   | "consts", ["fq"] => pure (toHex Gen.q ++ " " ++ toString Gen.fq_MODULUS_BITS ++ " " ++ toString (Gen.fq_MODULUS_BITS - 1) ++ " " ++
